@@ -1,58 +1,241 @@
-//! C10 — royalties of sg721-base: the REAL `instantiate` / `execute` / `query` entry points (under cw-multi-test,
-//! instantiated by a stub "minter" contract because sg721-base insists on a contract sender) and the REAL
-//! `CollectionInfoResponse::royalty_payout`, against the Lean model `LP.Royalty` (driver `drv_c10`).
+//! C10 — royalties of the four collection contracts (sg721-base, sg721-nt, sg721-updatable, sg721-metadata-onchain): the REAL
+//! `instantiate` / `execute` / `query` / `migrate` entry points (under cw-multi-test, instantiated by a stub "minter" contract
+//! because the collections insist on a contract sender) and the REAL `CollectionInfoResponse::royalty_payout`, against the Lean
+//! model `LP.Royalty` (driver `drv_c10`).
 //!
-//! Protocol lines: see `lean/LaunchpadModel/Driver/C10.lean`. Every line carries its block time `at=<ns>`.
+//! Protocol lines: see `lean/LaunchpadModel/Driver/C10.lean`. Every state line carries its block time `at=<ns>`.
 //! Conventions shared with the model (each is *checked* by the run, not trusted):
 //!   * address id 0 -> "x" (too short), 5 -> "ACCT00005" (not normalised): rejected by `addr_validate`; else `world::addr`;
 //!   * image / link id: even -> "https://…/<id>" (valid URL), odd -> "bad<id>" (`Url::parse` fails);
 //!   * description = "d" repeated `desc` times; shares are Decimal atomics (10^18 = 100 %).
+//!
+//! Round 3:
+//!   * all messages are raw JSON; the message surface of every kind is enumerated at RUN TIME from the crate's JSON schema
+//!     (`schema_for!(ExecuteMsg)`): every variant — also one this file has never heard of — is sent under the monitors;
+//!   * the compared answer is `roy upd frozen creator ## kind ver desc image link explicit stt` (after ` ## `: DRIFT only);
+//!   * monitors judge from GHOST state (what the harness sent and which calls were accepted), not from the contract's answers;
 use cosmwasm_schema::cw_serde;
 use cosmwasm_std::{
-    to_json_binary, Addr, Binary, Coin, Decimal, Deps, DepsMut, Empty, Env, MessageInfo, Response, StdResult, Timestamp, Uint128, Uint256,
-    WasmMsg,
+    to_json_binary, Addr, Binary, Coin, Decimal, Deps, DepsMut, Empty, Env, MessageInfo, Reply, Response, StdError, StdResult, SubMsg, Timestamp,
+    Uint128, Uint256, WasmMsg,
 };
 use cw_multi_test::{BankSudo, ContractWrapper, Executor, SudoMsg};
+use cw_storage_plus::Item;
 use lp_harness::boxes::{self, App};
 use lp_harness::world::*;
 use lp_harness::*;
-use sg721::{CollectionInfo, RoyaltyInfoResponse, UpdateCollectionInfoMsg};
-use sg721_base::msg::{CollectionInfoResponse, QueryMsg};
+use serde_json::{json, Map, Value};
+use sg721_base::msg::CollectionInfoResponse;
+use std::str::FromStr;
 
 const DAY: u64 = 24 * 60 * 60 * 1_000_000_000; // the property's "24 hours", in ns
 const ONE: u128 = 1_000_000_000_000_000_000; // 100 %
 const PCT: u128 = ONE / 100;
-const STUB_ID: u64 = 1000; // contract0
+const STUB_ID: u64 = 1000; // the stub minter (first contract of the world)
+const COLL_ID: u64 = 1001; // the collection (whatever address cw-multi-test gives it)
+const ADMIN: u64 = 9;
+
+// ------------------------------------------------------------------------------------------------ kinds
+
+#[derive(Clone, Copy, PartialEq, Eq, Debug)]
+enum Kind {
+    Base,
+    Nt,
+    Updatable,
+    Onchain,
+}
+const KINDS: [Kind; 4] = [Kind::Base, Kind::Nt, Kind::Updatable, Kind::Onchain];
+impl Kind {
+    fn name(self) -> &'static str {
+        match self {
+            Kind::Base => "base",
+            Kind::Nt => "nt",
+            Kind::Updatable => "updatable",
+            Kind::Onchain => "onchain",
+        }
+    }
+    fn parse(s: &str) -> Option<Kind> {
+        KINDS.iter().copied().find(|k| k.name() == s)
+    }
+    fn idx(self) -> usize {
+        KINDS.iter().position(|k| *k == self).unwrap()
+    }
+    fn key(self) -> String {
+        if self == Kind::Onchain {
+            "sg721-metadata-onchain".into()
+        } else {
+            format!("sg721-{}", self.name())
+        }
+    }
+    fn boxed(self) -> boxes::Boxed {
+        match self {
+            Kind::Base => boxes::sg721_base(),
+            Kind::Nt => boxes::sg721_nt(),
+            Kind::Updatable => boxes::sg721_updatable(),
+            Kind::Onchain => boxes::sg721_metadata_onchain(),
+        }
+    }
+}
+
+// ------------------------------------------------------------------------------------------------ run-time message surface
+
+/// variants this file has a NAMED protocol op for; everything else found in a schema goes through `other v=<variant>`
+const OWN_OPS: [&str; 3] = ["update_collection_info", "freeze_collection_info", "update_start_trading_time"];
+/// variants `other` builds by hand (so that they can succeed); any OTHER name is filled from the schema
+const HAND_BUILT: [&str; 10] = ["mint", "transfer_nft", "send_nft", "approve", "revoke", "approve_all", "revoke_all", "burn", "update_ownership", "update_token_metadata"];
+
+fn exec_schema(k: Kind) -> Value {
+    use cosmwasm_schema::schema_for;
+    let r = match k {
+        Kind::Base => schema_for!(sg721_base::ExecuteMsg),
+        Kind::Nt => schema_for!(sg721_nt::msg::ExecuteMsg<cw721_base::Extension>),
+        Kind::Updatable => schema_for!(sg721_updatable::msg::ExecuteMsg<cw721_base::Extension, Empty>),
+        Kind::Onchain => schema_for!(sg721_metadata_onchain::ExecuteMsg),
+    };
+    serde_json::to_value(&r).expect("schema to json")
+}
+
+/// (variant name in snake case, schema of its payload; None for a unit variant serialised as a bare string)
+fn schema_variants(root: &Value) -> Vec<(String, Option<Value>)> {
+    let mut out = vec![];
+    let mut alts: Vec<Value> = vec![];
+    for k in ["oneOf", "anyOf"] {
+        if let Some(a) = root[k].as_array() {
+            alts.extend(a.iter().cloned());
+        }
+    }
+    if alts.is_empty() {
+        alts.push(root.clone());
+    }
+    for alt in alts {
+        if let Some(en) = alt["enum"].as_array() {
+            for e in en {
+                if let Some(s) = e.as_str() {
+                    out.push((s.to_string(), None));
+                }
+            }
+        } else if let Some(req) = alt["required"].as_array() {
+            if let Some(name) = req.first().and_then(|x| x.as_str()) {
+                out.push((name.to_string(), Some(alt["properties"][name].clone())));
+            }
+        }
+    }
+    out.sort_by(|a, b| a.0.cmp(&b.0));
+    out.dedup_by(|a, b| a.0 == b.0);
+    out
+}
+
+/// minimal JSON value for a schema: integers = k, strings = k (an address when the field name looks like one), options = null
+fn fill(s: &Value, defs: &Value, k: u64, hint: &str, depth: u32) -> Value {
+    if depth > 8 {
+        return Value::Null;
+    }
+    if let Some(r) = s["$ref"].as_str() {
+        let name = r.rsplit('/').next().unwrap_or("");
+        return fill(&defs[name], defs, k, hint, depth + 1);
+    }
+    if let Some(a) = s["allOf"].as_array() {
+        if let Some(f) = a.first() {
+            return fill(f, defs, k, hint, depth + 1);
+        }
+    }
+    for key in ["anyOf", "oneOf"] {
+        if let Some(a) = s[key].as_array() {
+            if a.iter().any(|x| x["type"] == "null") {
+                return Value::Null;
+            }
+            if let Some(f) = a.first() {
+                if let Some(req) = f["required"].as_array().and_then(|r| r.first()).and_then(|x| x.as_str()) {
+                    let mut m = Map::new();
+                    m.insert(req.to_string(), fill(&f["properties"][req], defs, k, req, depth + 1));
+                    return Value::Object(m);
+                }
+                return fill(f, defs, k, hint, depth + 1);
+            }
+        }
+    }
+    if let Some(en) = s["enum"].as_array() {
+        return en.first().cloned().unwrap_or(Value::Null);
+    }
+    let ty: String = match &s["type"] {
+        Value::String(t) => t.clone(),
+        Value::Array(ts) => {
+            if ts.iter().any(|t| t == "null") {
+                return Value::Null;
+            }
+            ts.first().and_then(|t| t.as_str()).unwrap_or("").to_string()
+        }
+        _ => String::new(),
+    };
+    match ty.as_str() {
+        "integer" | "number" => json!(k),
+        "string" => {
+            let h = hint.to_lowercase();
+            if ["addr", "recipient", "contract", "owner", "sender", "admin", "spender", "operator", "creator"].iter().any(|w| h.contains(w)) {
+                json!(addr(11 + k % 3))
+            } else {
+                json!(k.to_string())
+            }
+        }
+        "boolean" => json!(k % 2 == 1),
+        "array" => json!([]),
+        "object" => {
+            let mut m = Map::new();
+            if let Some(req) = s["required"].as_array() {
+                for r in req.iter().filter_map(|x| x.as_str()) {
+                    m.insert(r.to_string(), fill(&s["properties"][r], defs, k, r, depth + 1));
+                }
+            }
+            Value::Object(m)
+        }
+        _ => Value::Null,
+    }
+}
+
+/// raw message for a variant found in a schema
+fn raw_variant_msg(root: &Value, name: &str, k: u64) -> Option<Value> {
+    let defs = &root["definitions"];
+    schema_variants(root).into_iter().find(|(n, _)| n == name).map(|(n, sch)| match sch {
+        None => Value::String(n),
+        Some(s) => {
+            let mut m = Map::new();
+            m.insert(n.clone(), fill(&s, defs, k, &n, 0));
+            Value::Object(m)
+        }
+    })
+}
 
 // ------------------------------------------------------------------------------------------------ stub minter
 
 #[cw_serde]
 enum StubExec {
-    Inst { code_id: u64, msg: Binary, funds: Vec<Coin> },
+    Inst { code_id: u64, msg: Binary, funds: Vec<Coin>, admin: Option<String> },
     Exec { contract: String, msg: Binary },
 }
+const STUB_LAST: Item<String> = Item::new("last_instantiated");
 fn stub_instantiate(_d: DepsMut, _e: Env, _i: MessageInfo, _m: Empty) -> StdResult<Response> {
     Ok(Response::new())
 }
 fn stub_execute(_d: DepsMut, _e: Env, _i: MessageInfo, m: StubExec) -> StdResult<Response> {
     Ok(match m {
-        StubExec::Inst { code_id, msg, funds } => Response::new().add_message(WasmMsg::Instantiate { admin: None, code_id, msg, funds, label: "collection".into() }),
+        StubExec::Inst { code_id, msg, funds, admin } => {
+            Response::new().add_submessage(SubMsg::reply_on_success(WasmMsg::Instantiate { admin, code_id, msg, funds, label: "collection".into() }, 1))
+        }
         StubExec::Exec { contract, msg } => Response::new().add_message(WasmMsg::Execute { contract_addr: contract, msg, funds: vec![] }),
     })
 }
-fn stub_query(_d: Deps, _e: Env, _m: Empty) -> StdResult<Binary> {
-    Ok(Binary::default())
+/// the address of the new collection comes from the protobuf instantiate response (not from event attribute names)
+fn stub_reply(d: DepsMut, _e: Env, r: Reply) -> StdResult<Response> {
+    let res = cw_utils::parse_reply_instantiate_data(r).map_err(|e| StdError::generic_err(e.to_string()))?;
+    STUB_LAST.save(d.storage, &res.contract_address)?;
+    Ok(Response::new())
+}
+fn stub_query(d: Deps, _e: Env, _m: Empty) -> StdResult<Binary> {
+    to_json_binary(&STUB_LAST.may_load(d.storage)?)
 }
 
 // ------------------------------------------------------------------------------------------------ naming
 
-fn addr_s(id: u64) -> String {
-    match id {
-        0 => "x".into(),
-        5 => "ACCT00005".into(),
-        n => addr(n),
-    }
-}
 fn url_s(kind: &str, id: u64) -> String {
     if id % 2 == 0 {
         format!("https://{kind}.example/{id}")
@@ -71,26 +254,58 @@ fn parse_roy(v: &str) -> Option<(u64, u128)> {
     let (a, s) = v.split_once(':')?;
     Some((a.parse().ok()?, s.parse().ok()?))
 }
+fn fmt_roy(r: &Option<(u64, u128)>) -> String {
+    match r {
+        None => "-".to_string(),
+        Some((a, s)) => format!("{a}:{s}"),
+    }
+}
+fn opt_bool_json(v: &str) -> Value {
+    match v {
+        "1" => json!(true),
+        "0" => json!(false),
+        _ => Value::Null,
+    }
+}
+fn parse_ver(s: &str) -> Option<(u64, u64, u64)> {
+    let mut it = s.split('.');
+    let v = (it.next()?.parse().ok()?, it.next()?.parse().ok()?, it.next()?.parse().ok()?);
+    if it.next().is_some() {
+        return None;
+    }
+    Some(v)
+}
 
+/// what the harness sees after a state op. Before ` ## `: what C10 constrains (royalty) and the mechanism state the theorems
+/// use (cadence anchor, frozen flag, creator). After: observations owned by other properties (C09, C20).
 #[derive(Clone, Debug, PartialEq)]
 struct Obs {
+    roy: Option<(u64, u128)>,
+    upd: Option<u64>,
+    frozen: Option<bool>,
     creator: u64,
+    kind: Kind,
+    name: String,
+    ver: String,
     desc: usize,
     image: u64,
     link: Option<u64>,
     explicit: Option<bool>,
     stt: Option<u64>,
-    roy: Option<(u64, u128)>,
-    frozen: bool,
-    upd: u64,
 }
 impl Obs {
     fn render(o: &Option<Obs>) -> String {
         match o {
             None => "none".into(),
             Some(o) => format!(
-                "creator={} desc={} image={} link={} explicit={} stt={} roy={} frozen={} upd={}",
+                "roy={} upd={} frozen={} creator={} ## kind={} name={} ver={} desc={} image={} link={} explicit={} stt={}",
+                fmt_roy(&o.roy),
+                o.upd.map_or("?".to_string(), |t| t.to_string()),
+                o.frozen.map_or("?".to_string(), |f| (f as u8).to_string()),
                 o.creator,
+                o.kind.name(),
+                o.name,
+                o.ver,
                 o.desc,
                 o.image,
                 fmt_opt(&o.link),
@@ -100,60 +315,57 @@ impl Obs {
                     Some(false) => "0",
                 },
                 fmt_opt(&o.stt),
-                match o.roy {
-                    None => "-".to_string(),
-                    Some((a, s)) => format!("{a}:{s}"),
-                },
-                o.frozen as u8,
-                o.upd
             ),
         }
     }
-    /// parse the observation part of an answer line (used by the generators to follow the real state)
-    fn parse(ans: &str) -> Option<Obs> {
+}
+
+/// the part of an answer the generators follow (parsed back from the answer text)
+#[derive(Clone, Debug)]
+struct Seen {
+    roy: Option<(u64, u128)>,
+    upd: u64,
+    frozen: bool,
+    creator: u64,
+}
+impl Seen {
+    fn parse(ans: &str) -> Option<Seen> {
         if !ans.contains("creator=") {
             return None;
         }
-        Some(Obs {
-            creator: kv_u64(ans, "creator")?,
-            desc: kv_u64(ans, "desc")? as usize,
-            image: kv_u64(ans, "image")?,
-            link: kv_opt_u64(ans, "link")?,
-            explicit: match kv(ans, "explicit")? {
-                "1" => Some(true),
-                "0" => Some(false),
-                _ => None,
-            },
-            stt: kv_opt_u64(ans, "stt")?,
+        Some(Seen {
             roy: match kv(ans, "roy")? {
                 "-" => None,
                 v => parse_roy(v),
             },
-            frozen: kv_bool(ans, "frozen")?,
             upd: kv_u64(ans, "upd")?,
+            frozen: kv_bool(ans, "frozen")?,
+            creator: kv_u64(ans, "creator")?,
         })
     }
 }
 
-// ------------------------------------------------------------------------------------------------ world + Sut
+// ------------------------------------------------------------------------------------------------ world
 
 struct World {
     app: App,
     stub: Addr,
-    code: u64,
+    codes: [u64; 4],
+    schemas: [Value; 4],
     coll: Option<Addr>,
+    /// the code the collection currently runs (changes on a successful migration)
+    kind: Kind,
 }
 impl World {
-    fn new() -> World {
+    fn new(schemas: &[Value; 4]) -> World {
         let mut app = boxes::custom_mock_app();
-        let stub_code = app.store_code(Box::new(ContractWrapper::new(stub_execute, stub_instantiate, stub_query)));
-        let code = app.store_code(boxes::sg721_base());
-        let stub = app.instantiate_contract(stub_code, a(9), &Empty {}, &[], "stub-minter", None).expect("stub");
-        assert_eq!(addr_id(stub.as_str()), STUB_ID);
+        let stub_code = app.store_code(Box::new(ContractWrapper::new(stub_execute, stub_instantiate, stub_query).with_reply(stub_reply)));
+        let codes = [app.store_code(Kind::Base.boxed()), app.store_code(Kind::Nt.boxed()), app.store_code(Kind::Updatable.boxed()), app.store_code(Kind::Onchain.boxed())];
+        let stub = app.instantiate_contract(stub_code, a(ADMIN), &Empty {}, &[], "stub-minter", None).expect("stub");
         for who in [stub.to_string(), addr(10), addr(11), addr(12)] {
             app.sudo(SudoMsg::Bank(BankSudo::Mint { to_address: who, amount: vec![coin_of(0, 1_000_000)] })).expect("fund");
         }
-        World { app, stub, code, coll: None }
+        World { app, stub, codes, schemas: schemas.clone(), coll: None, kind: Kind::Base }
     }
     fn set_time(&mut self, at: u64) {
         self.app.update_block(|b| {
@@ -161,177 +373,259 @@ impl World {
             b.height += 1;
         });
     }
+    /// id -> address string, tolerant of how cw-multi-test numbers contracts
+    fn addr_s(&self, id: u64) -> String {
+        match id {
+            0 => "x".into(),
+            5 => "ACCT00005".into(),
+            STUB_ID => self.stub.to_string(),
+            COLL_ID => self.coll.as_ref().map(|c| c.to_string()).unwrap_or_else(|| addr(COLL_ID)),
+            n => addr(n),
+        }
+    }
+    fn id_of(&self, s: &str) -> u64 {
+        if s == self.stub.as_str() {
+            STUB_ID
+        } else if self.coll.as_ref().map_or(false, |c| c.as_str() == s) {
+            COLL_ID
+        } else {
+            addr_id(s)
+        }
+    }
+    fn schema(&self) -> &Value {
+        &self.schemas[self.kind.idx()]
+    }
     fn observe(&self) -> Option<Obs> {
         let c = self.coll.as_ref()?;
-        let info: CollectionInfoResponse = self.app.wrap().query_wasm_smart(c, &QueryMsg::CollectionInfo {}).ok()?;
-        let raw = |k: &str| self.app.wrap().query_wasm_raw(c.to_string(), k.as_bytes().to_vec()).ok().flatten();
-        let upd: Timestamp = cosmwasm_std::from_json(raw("royalty_updated_at")?).ok()?;
-        let frozen: bool = cosmwasm_std::from_json(raw("frozen_collection_info")?).ok()?;
+        let q = self.app.wrap();
+        let info: Value = q.query_wasm_smart(c, &json!({"collection_info": {}})).ok()?;
+        // typed state constants of the crate (no hand-written storage keys); `?` in the answer if one cannot be read
+        let st = sg721_base::Sg721Contract::<cw721_base::Extension>::default();
+        let upd = st.royalty_updated_at.query(&q, c.clone()).ok().map(|t| t.nanos());
+        let frozen = st.frozen_collection_info.query(&q, c.clone()).ok();
+        let (name, ver) = match cw2::query_contract_info(&q, c.to_string()) {
+            Ok(v) => {
+                let n = v.contract.trim_start_matches("crates.io:").trim_start_matches("sg721-").to_string();
+                (if n == "metadata-onchain" { "onchain".to_string() } else { n }, v.version)
+            }
+            Err(_) => ("?".into(), "?".into()),
+        };
+        let roy = match &info["royalty_info"] {
+            Value::Null => None,
+            r => Some((self.id_of(r["payment_address"].as_str()?), Decimal::from_str(r["share"].as_str()?).ok()?.atomics().u128())),
+        };
         Some(Obs {
-            creator: addr_id(&info.creator),
-            desc: info.description.len(),
-            image: url_id(&info.image),
-            link: info.external_link.as_deref().map(url_id),
-            explicit: info.explicit_content,
-            stt: info.start_trading_time.map(|t| t.nanos()),
-            roy: info.royalty_info.map(|r| (addr_id(&r.payment_address), r.share.atomics().u128())),
+            roy,
+            upd,
             frozen,
-            upd: upd.nanos(),
+            creator: self.id_of(info["creator"].as_str()?),
+            kind: self.kind,
+            name,
+            ver,
+            desc: info["description"].as_str().map_or(0, |s| s.len()),
+            image: info["image"].as_str().map_or(999_999_999, url_id),
+            link: info["external_link"].as_str().map(url_id),
+            explicit: info["explicit_content"].as_bool(),
+            stt: info["start_trading_time"].as_str().and_then(|s| s.parse().ok()),
         })
     }
     /// execute a collection message as `sender` (routed through the stub when the sender is the stub contract)
-    fn exec_coll(&mut self, sender: u64, msg: &sg721_base::ExecuteMsg) -> bool {
+    fn exec_coll(&mut self, sender: u64, msg: &Value) -> bool {
         let Some(c) = self.coll.clone() else { return false };
         let stub = self.stub.clone();
+        let from = self.addr_s(sender);
         let app = &mut self.app;
         catch(|| {
             if sender == STUB_ID {
-                app.execute_contract(a(9), stub, &StubExec::Exec { contract: c.to_string(), msg: to_json_binary(msg).unwrap() }, &[]).is_ok()
+                app.execute_contract(a(ADMIN), stub, &StubExec::Exec { contract: c.to_string(), msg: to_json_binary(msg).unwrap() }, &[]).is_ok()
             } else {
-                app.execute_contract(Addr::unchecked(addr_s(sender)), c, msg, &[]).is_ok()
+                app.execute_contract(Addr::unchecked(from), c, msg, &[]).is_ok()
             }
         })
         .unwrap_or(false)
     }
+
+    // ---- messages (raw JSON; field / variant shapes are read from the running contract's schema where they differ per kind)
+
+    fn upd_msg(&self, line: &str) -> Value {
+        let mut ci = Map::new();
+        ci.insert("description".into(), json!(kv_opt_u64(line, "desc").unwrap().map(|n| "d".repeat(n as usize))));
+        ci.insert("image".into(), json!(kv_opt_u64(line, "image").unwrap().map(|i| url_s("img", i))));
+        match kv(line, "link").unwrap() {
+            "keep" => {}
+            "clear" => {
+                ci.insert("external_link".into(), Value::Null);
+            }
+            v => {
+                ci.insert("external_link".into(), json!(url_s("link", v.parse().unwrap())));
+            }
+        }
+        ci.insert("explicit_content".into(), opt_bool_json(kv(line, "explicit").unwrap()));
+        match kv(line, "roy").unwrap() {
+            "keep" => {}
+            "clear" => {
+                ci.insert("royalty_info".into(), Value::Null);
+            }
+            v => {
+                let (ad, s) = parse_roy(v).unwrap();
+                ci.insert("royalty_info".into(), json!({"payment_address": self.addr_s(ad), "share": dec(s).to_string()}));
+            }
+        }
+        ci.insert("creator".into(), json!(kv_opt_u64(line, "creator").unwrap().map(|x| self.addr_s(x))));
+        // `collection_info` (sg721) vs `new_collection_info` (sg721-nt): whatever the running contract's schema says
+        let field = schema_variants(self.schema())
+            .into_iter()
+            .find(|(n, _)| n == "update_collection_info")
+            .and_then(|(_, s)| s)
+            .and_then(|s| s["required"].as_array().and_then(|r| r.first()).and_then(|x| x.as_str()).map(String::from))
+            .unwrap_or_else(|| "collection_info".into());
+        json!({"update_collection_info": {field: Value::Object(ci)}})
+    }
+    fn freeze_msg(&self) -> Value {
+        // unit variant in sg721::ExecuteMsg, struct variant in the nt / updatable enums
+        raw_variant_msg(self.schema(), "freeze_collection_info", 0).unwrap_or_else(|| json!({"freeze_collection_info": {}}))
+    }
+    fn other_msg(&self, v: &str, t: u64) -> Value {
+        let who = |k: u64| addr(10 + k % 4);
+        let tok = t.to_string();
+        match v {
+            "mint" => {
+                let ext = if self.kind == Kind::Onchain { json!({}) } else { Value::Null };
+                json!({"mint": {"token_id": tok, "owner": who(t), "token_uri": "ipfs://x", "extension": ext}})
+            }
+            "transfer_nft" => json!({"transfer_nft": {"recipient": who(t + 1), "token_id": tok}}),
+            "send_nft" => json!({"send_nft": {"contract": self.stub.to_string(), "token_id": tok, "msg": Binary::default()}}),
+            "approve" => json!({"approve": {"spender": who(t + 2), "token_id": tok, "expires": null}}),
+            "revoke" => json!({"revoke": {"spender": who(t + 2), "token_id": tok}}),
+            "approve_all" => json!({"approve_all": {"operator": who(t + 3), "expires": null}}),
+            "revoke_all" => json!({"revoke_all": {"operator": who(t + 3)}}),
+            "burn" => json!({"burn": {"token_id": tok}}),
+            "update_ownership" => match t % 3 {
+                0 => json!({"update_ownership": {"transfer_ownership": {"new_owner": who(t), "expiry": null}}}),
+                1 => json!({"update_ownership": "accept_ownership"}),
+                _ => json!({"update_ownership": "renounce_ownership"}),
+            },
+            "update_token_metadata" => json!({"update_token_metadata": {"token_id": tok, "token_uri": "ipfs://y"}}),
+            // anything else: minimal arguments from the schema of the running contract (a variant this file has never heard of
+            // lands here); a name that is not in the schema at all is sent as `{name: {}}` and must be refused
+            _ => raw_variant_msg(self.schema(), v, t).unwrap_or_else(|| json!({v: {}})),
+        }
+    }
+    fn payout_resp(&self, info: Option<(u64, u128)>) -> CollectionInfoResponse {
+        serde_json::from_value(json!({
+            "creator": addr(10), "description": "", "image": "https://img.example/0", "external_link": null, "explicit_content": null,
+            "start_trading_time": null,
+            "royalty_info": info.map(|(ad, s)| json!({"payment_address": self.addr_s(ad), "share": dec(s).to_string()})),
+        }))
+        .expect("CollectionInfoResponse from JSON")
+    }
+}
+
+// ------------------------------------------------------------------------------------------------ Sut
+
+/// what the harness knows on its own: the royalty it last got accepted, when, and which stored version it fabricated
+#[derive(Clone, Debug)]
+struct Ghost {
+    roy: Option<(u64, u128)>,
+    last: u64,
+    /// an accepted migration to sg721-updatable from a harness-known stored version < 3.1.0 happened since `last`, at this time
+    rewound_at: Option<u64>,
+    ver: Option<(u64, u64, u64)>,
 }
 
 struct S {
+    schemas: [Value; 4],
     w: World,
-    // ---- monitor bookkeeping (implementation trace only)
     prev: Option<Obs>,
     cur: Option<Obs>,
-    last_line: String,
-    last_out: String,
-    /// block time of the instantiate / of the last accepted royalty change, as witnessed by the monitor itself
-    last_change: Option<u64>,
+    g: Option<Ghost>,
     pending: Option<(String, String)>,
 }
 
 impl S {
     fn new() -> S {
-        S { w: World::new(), prev: None, cur: None, last_line: String::new(), last_out: String::new(), last_change: None, pending: None }
+        let schemas = [exec_schema(Kind::Base), exec_schema(Kind::Nt), exec_schema(Kind::Updatable), exec_schema(Kind::Onchain)];
+        let w = World::new(&schemas);
+        S { schemas, w, prev: None, cur: None, g: None, pending: None }
     }
 
     fn do_inst(&mut self, line: &str) -> bool {
+        let Some(kind) = kv(line, "kind").and_then(Kind::parse) else { return false };
         let at = kv_u64(line, "at").unwrap();
         self.w.set_time(at);
         let roy = match kv(line, "roy").unwrap() {
-            "-" => None,
-            v => parse_roy(v).map(|(ad, s)| RoyaltyInfoResponse { payment_address: addr_s(ad), share: dec(s) }),
+            "-" => Value::Null,
+            v => {
+                let (ad, s) = parse_roy(v).unwrap();
+                json!({"payment_address": self.w.addr_s(ad), "share": dec(s).to_string()})
+            }
         };
-        let msg = sg721::InstantiateMsg {
-            name: "Collection".into(),
-            symbol: "COL".into(),
-            minter: addr_s(kv_u64(line, "minter").unwrap()),
-            collection_info: CollectionInfo {
-                creator: addr_s(kv_u64(line, "creator").unwrap()),
-                description: "d".repeat(kv_u64(line, "desc").unwrap() as usize),
-                image: url_s("img", kv_u64(line, "image").unwrap()),
-                external_link: kv_opt_u64(line, "link").unwrap().map(|l| url_s("link", l)),
-                explicit_content: match kv(line, "explicit").unwrap() {
-                    "1" => Some(true),
-                    "0" => Some(false),
-                    _ => None,
-                },
-                start_trading_time: kv_opt_u64(line, "stt").unwrap().map(Timestamp::from_nanos),
-                royalty_info: roy,
+        let msg = json!({
+            "name": "Collection", "symbol": "COL", "minter": self.w.addr_s(kv_u64(line, "minter").unwrap()),
+            "collection_info": {
+                "creator": self.w.addr_s(kv_u64(line, "creator").unwrap()),
+                "description": "d".repeat(kv_u64(line, "desc").unwrap() as usize),
+                "image": url_s("img", kv_u64(line, "image").unwrap()),
+                "external_link": kv_opt_u64(line, "link").unwrap().map(|l| url_s("link", l)),
+                "explicit_content": opt_bool_json(kv(line, "explicit").unwrap()),
+                "start_trading_time": kv_opt_u64(line, "stt").unwrap().map(|t| t.to_string()),
+                "royalty_info": roy,
             },
-        };
+        });
         let funds_amt = kv_u128(line, "funds").unwrap();
         let funds: Vec<Coin> = if funds_amt == 0 { vec![] } else { vec![coin_of(0, funds_amt)] };
         let via = kv_bool(line, "via").unwrap();
-        let code = self.w.code;
+        let code = self.w.codes[kind.idx()];
         let stub = self.w.stub.clone();
         let app = &mut self.w.app;
         let res: Option<Addr> = catch(|| {
             if via {
-                let r = app.execute_contract(a(9), stub, &StubExec::Inst { code_id: code, msg: to_json_binary(&msg).unwrap(), funds }, &[]).ok()?;
-                let ev = r.events.iter().rev().find(|e| e.ty == "instantiate")?;
-                let ad = ev.attributes.iter().find(|x| x.key == "_contract_address")?;
-                Some(Addr::unchecked(ad.value.clone()))
+                app.execute_contract(a(ADMIN), stub.clone(), &StubExec::Inst { code_id: code, msg: to_json_binary(&msg).unwrap(), funds, admin: Some(addr(ADMIN)) }, &[]).ok()?;
+                let last: Option<String> = app.wrap().query_wasm_smart(stub, &Empty {}).ok()?;
+                last.map(Addr::unchecked)
             } else {
-                app.instantiate_contract(code, a(10), &msg, &funds, "collection", None).ok()
+                app.instantiate_contract(code, a(10), &msg, &funds, "collection", Some(addr(ADMIN))).ok()
             }
         })
         .unwrap_or(None);
         match res {
             Some(c) => {
                 self.w.coll = Some(c);
+                self.w.kind = kind;
                 true
             }
             None => false,
         }
     }
 
-    fn do_upd(&mut self, line: &str) -> bool {
-        let roy: Option<Option<RoyaltyInfoResponse>> = match kv(line, "roy").unwrap() {
-            "keep" => None,
-            "clear" => Some(None),
-            v => parse_roy(v).map(|(ad, s)| Some(RoyaltyInfoResponse { payment_address: addr_s(ad), share: dec(s) })),
-        };
-        let link: Option<Option<String>> = match kv(line, "link").unwrap() {
-            "keep" => None,
-            "clear" => Some(None),
-            v => Some(Some(url_s("link", v.parse().unwrap()))),
-        };
-        let msg = sg721_base::ExecuteMsg::UpdateCollectionInfo {
-            collection_info: UpdateCollectionInfoMsg {
-                description: kv_opt_u64(line, "desc").unwrap().map(|n| "d".repeat(n as usize)),
-                image: kv_opt_u64(line, "image").unwrap().map(|i| url_s("img", i)),
-                external_link: link,
-                explicit_content: match kv(line, "explicit").unwrap() {
-                    "1" => Some(true),
-                    "0" => Some(false),
-                    _ => None,
-                },
-                royalty_info: roy,
-                creator: kv_opt_u64(line, "creator").unwrap().map(addr_s),
-            },
-        };
-        self.w.exec_coll(kv_u64(line, "sender").unwrap(), &msg)
+    fn do_migrate(&mut self, line: &str) -> bool {
+        let Some(to) = kv(line, "to").and_then(Kind::parse) else { return false };
+        let Some(c) = self.w.coll.clone() else { return false };
+        let code = self.w.codes[to.idx()];
+        let app = &mut self.w.app;
+        let ok = catch(|| app.migrate_contract(a(ADMIN), c, &json!({}), code).is_ok()).unwrap_or(false);
+        if ok {
+            self.w.kind = to;
+        }
+        ok
     }
 
-    fn do_other(&mut self, line: &str) -> bool {
-        use sg721::ExecuteMsg as E;
-        let tok = kv_u64(line, "tok").unwrap().to_string();
-        let who = |k: u64| addr(10 + k % 4);
-        let t = kv_u64(line, "tok").unwrap();
-        let msg: sg721_base::ExecuteMsg = match kv_u64(line, "kind").unwrap() {
-            0 => E::Mint { token_id: tok, owner: who(t), token_uri: Some("ipfs://x".into()), extension: None },
-            1 => E::TransferNft { recipient: who(t + 1), token_id: tok },
-            2 => E::Approve { spender: who(t + 2), token_id: tok, expires: None },
-            3 => E::Revoke { spender: who(t + 2), token_id: tok },
-            4 => E::ApproveAll { operator: who(t + 3), expires: None },
-            5 => E::RevokeAll { operator: who(t + 3) },
-            6 => E::Burn { token_id: tok },
-            7 => E::SendNft { contract: self.w.stub.to_string(), token_id: tok, msg: Binary::default() },
-            8 => E::UpdateOwnership(cw_ownable::Action::TransferOwnership { new_owner: who(t), expiry: None }),
-            9 => E::UpdateOwnership(cw_ownable::Action::AcceptOwnership),
-            10 => E::UpdateOwnership(cw_ownable::Action::RenounceOwnership),
-            _ => E::Extension { msg: Empty {} }, // `todo!()` in the contract: a panic = failed transaction
-        };
-        self.w.exec_coll(kv_u64(line, "sender").unwrap(), &msg)
+    /// harness fabrication: rewrite the stored cw2 version (the stored contract name is kept)
+    fn do_setver(&mut self, line: &str) -> bool {
+        let Some(c) = self.w.coll.clone() else { return false };
+        let Some(v) = kv(line, "v") else { return false };
+        let Ok(cur) = cw2::query_contract_info(&self.w.app.wrap(), c.to_string()) else { return false };
+        let mut st = self.w.app.contract_storage_mut(&c);
+        cw2::set_contract_version(&mut *st, cur.contract, v).is_ok()
     }
 
-    fn payout(info: Option<(u64, u128)>, line: &str) -> String {
-        let resp = CollectionInfoResponse {
-            creator: addr(10),
-            description: String::new(),
-            image: "https://img.example/0".into(),
-            external_link: None,
-            explicit_content: None,
-            start_trading_time: None,
-            royalty_info: info.map(|(ad, s)| RoyaltyInfoResponse { payment_address: addr_s(ad), share: dec(s) }),
-        };
-        Self::payout_on(&resp, line)
-    }
     fn payout_on(resp: &CollectionInfoResponse, line: &str) -> String {
         let pay = kv_u128(line, "pay").unwrap();
         let fee = kv_u128(line, "fee").unwrap();
         let finders = kv_opt_u128(line, "finders").unwrap();
         catch(|| {
             let mut res = Response::new();
-            match resp.royalty_payout(a(1001), Uint128::new(pay), Uint128::new(fee), finders.map(Uint128::new), &mut res) {
+            match resp.royalty_payout(a(COLL_ID), Uint128::new(pay), Uint128::new(fee), finders.map(Uint128::new), &mut res) {
                 Ok(amt) => format!("ok {} {}", amt.u128(), render_msgs(&res.messages)),
                 Err(_) => "err".into(),
             }
@@ -340,17 +634,24 @@ impl S {
     }
 
     /// independent re-statement of the payout clause, on 256-bit integers
-    fn check_payout(info: Option<(u64, u128)>, line: &str, out: &str) -> Option<(String, String)> {
+    fn check_payout(&self, info: Option<(u64, u128)>, line: &str, out: &str) -> Option<(String, String)> {
         let pay = kv_u128(line, "pay")?;
         let fee = kv_u128(line, "fee")?;
         let finders = kv_opt_u128(line, "finders")?.unwrap_or(0);
         let bad = |p: &str, w: String| Some((format!("sg721-base/royalty_payout/{p}"), format!("{w} on `{line}` (royalty {:?}) => `{out}`", info)));
+        let fees = Uint256::from(fee) + Uint256::from(finders);
         match info {
-            None => (out != "ok 0 -").then(|| bad("absent-pays", "no royalties configured: must pay nothing".into())).flatten(),
-            Some((_, 0)) => (out != "ok 0 -").then(|| bad("zero-share-pays", "zero share: must pay nothing".into())).flatten(),
+            None | Some((_, 0)) => {
+                // "refuses when fees plus royalty exceed the payment" with royalty = 0 (repaired in /repo 00871d3; before, Ok(0))
+                if Uint256::from(pay) < fees {
+                    return (out != "err").then(|| bad("fees-exceed-accepted-zero-royalty", format!("fees {fee}+{finders} (royalty 0) exceed the payment {pay}: must refuse"))).flatten();
+                }
+                let p = if info.is_none() { "absent-pays" } else { "zero-share-pays" };
+                (out != "ok 0 -").then(|| bad(p, "no royalty due and the fees fit: must pay nothing".into())).flatten()
+            }
             Some((ad, share)) => {
                 let floor = Uint256::from(pay) * Uint256::from(share) / Uint256::from(ONE);
-                let need = Uint256::from(fee) + Uint256::from(finders) + floor;
+                let need = fees + floor;
                 if Uint256::from(pay) < need {
                     (out != "err").then(|| bad("fees-exceed-accepted", format!("fees {fee}+{finders} plus royalty {floor} exceed the payment {pay}: must refuse"))).flatten()
                 } else {
@@ -360,151 +661,201 @@ impl S {
             }
         }
     }
+
+    fn state_answer(&mut self, ok: bool) -> String {
+        self.prev = self.cur.take();
+        self.cur = self.w.observe();
+        format!("{} {}", if ok { "ok" } else { "err" }, Obs::render(&self.cur))
+    }
+
+    /// Direct transcription of C10 on GHOST state: the royalty the harness last got accepted (`g.roy`), when (`g.last`), what it
+    /// sends now and whether the call was accepted. The contract's answers are only ever COMPARED with the ghost.
+    fn judge(&mut self, op: &str, line: &str, ok: bool, out: &str) -> Option<(String, String)> {
+        let kind_key = self.w.kind.key();
+        let bad = |p: &str, w: String| Some((format!("{kind_key}/{op}/{p}"), format!("{w}; op `{line}` => `{out}`")));
+        let cur = self.cur.clone()?;
+        // "never above 100%, at creation or after any update"
+        if let Some((_, s)) = cur.roy {
+            if s > ONE {
+                return bad("share-above-100", format!("stored royalty share {s} atomics is above 100%"));
+            }
+        }
+        if op == "inst" {
+            if ok && self.g.is_none() {
+                let sent = match kv(line, "roy")? {
+                    "-" => None,
+                    v => parse_roy(v),
+                };
+                self.g = Some(Ghost { roy: sent, last: kv_u64(line, "at")?, rewound_at: None, ver: parse_ver(&cur.ver) });
+                if let Some((_, s)) = sent {
+                    if s > ONE {
+                        return bad("share-above-100", format!("instantiate with a royalty share of {s} atomics (above 100%) was accepted"));
+                    }
+                }
+                if cur.roy != sent {
+                    return bad("stored-differs-from-sent", format!("instantiate stored royalty {:?}, sent {:?}", cur.roy, sent));
+                }
+            }
+            return None;
+        }
+        let prev = self.prev.clone()?;
+        let mut g = self.g.clone()?;
+        if op == "setver" {
+            if ok {
+                g.ver = kv(line, "v").and_then(parse_ver);
+            }
+        }
+        if op == "migrate" && ok {
+            if kv(line, "to") == Some("updatable") && g.ver.map_or(false, |v| v < (3, 1, 0)) {
+                g.rewound_at = Some(kv_u64(line, "at")?);
+            }
+            g.ver = parse_ver(&cur.ver);
+        }
+        let at = kv_u64(line, "at").unwrap_or(0);
+        let sent = if op == "upd" { kv(line, "roy").and_then(parse_roy) } else { None };
+        let accepted_update = ok && sent.is_some();
+        let expected = if accepted_update { sent } else { g.roy };
+        // every change of the stored royalty must be an accepted royalty update storing exactly what was sent
+        if cur.roy != expected {
+            self.g = Some(g);
+            return if accepted_update {
+                bad("stored-differs-from-sent", format!("accepted royalty update stored {:?}, sent {:?}", cur.roy, sent))
+            } else {
+                bad("royalty-changed-outside-update", format!("stored royalty is {:?} but the last accepted royalty update / instantiate set {:?} (this op is not an accepted royalty update)", cur.roy, expected))
+            };
+        }
+        let mut verdict = None;
+        if let (true, Some((_, n))) = (accepted_update, sent) {
+            if n > ONE {
+                verdict = bad("share-above-100", format!("royalty update to {n} atomics (above 100%) was accepted"));
+            }
+            // "an update that raises the share raises it by at most 2 percentage points and to at most 10%"
+            if let Some((_, o)) = g.roy {
+                if n > o && n - o > 2 * PCT {
+                    verdict = verdict.or(bad("raise-above-2pp", format!("share raised from {o} to {n}: more than 2 percentage points")));
+                }
+                if n > o && n > 10 * PCT {
+                    verdict = verdict.or(bad("raise-above-10pct", format!("share raised from {o} to {n}: above 10%")));
+                }
+            }
+            // "any royalty change is accepted at most once per 24 hours" (first change: 24 h after creation)
+            // An accepted upgrade to sg721-updatable from a harness-fabricated stored version below 3.1.0 since the last change
+            // restarts the cadence (`upgrades::v3_1_0`): by decision NOT a finding — the property quantifies over royalty updates
+            // of a collection, not over upgrades from pre-3.1.0 code (Lean: `C10_cadence_upgrade_counterexample`; for collections
+            // created by the current code `C10_no_rewind_reachable`). The generator records it as an observation.
+            if (at as u128) < g.last as u128 + DAY as u128 && g.rewound_at.is_none() {
+                verdict = verdict.or(bad("cadence", format!("royalty change accepted at {at}, less than 24h after the previous change/creation at {}", g.last)));
+            }
+        }
+        // "lowering is always allowed within that cadence": by the creator of an unfrozen collection, message carrying nothing
+        // but the royalty (so no other field's validation is involved), valid payment address, 24 h after the last change
+        if let (Some((ad, s)), Some((_, o))) = (sent, g.roy) {
+            let plain = kv(line, "desc") == Some("-") && kv(line, "image") == Some("-") && kv(line, "link") == Some("keep") && kv(line, "creator") == Some("-");
+            let sender = kv_u64(line, "sender")?;
+            let due = at as u128 >= g.last as u128 + DAY as u128 && g.rewound_at.map_or(true, |t| at >= t);
+            if plain && s <= o && o <= ONE && sender == prev.creator && prev.frozen == Some(false) && due && ad != 0 && ad != 5 && !ok {
+                verdict = verdict.or(bad("lower-rejected", format!("lowering the share from {o} to {s} by the creator, 24h after {}, was refused", g.last)));
+            }
+        }
+        if accepted_update {
+            g.roy = sent;
+            g.last = at;
+            g.rewound_at = None;
+        }
+        self.g = Some(g);
+        verdict
+    }
 }
 
 impl Sut for S {
     fn begin(&mut self, header: &str) -> (String, String) {
-        *self = S::new();
+        self.w = World::new(&self.schemas);
+        self.prev = None;
+        self.cur = None;
+        self.g = None;
+        self.pending = None;
         (header.to_string(), "case".to_string())
     }
 
     fn exec(&mut self, line: &str) -> (String, String) {
-        let op = line.split_whitespace().next().unwrap_or("");
+        let op = line.split_whitespace().next().unwrap_or("").to_string();
         self.pending = None;
         let mut model_line = line.to_string();
-        let out: String = match op {
+        let witnessed = matches!(op.as_str(), "stt" | "other" | "migrate");
+        let out: String = match op.as_str() {
             "payout" => {
                 let info = match kv(line, "roy").unwrap() {
                     "-" => None,
                     v => parse_roy(v),
                 };
-                let o = S::payout(info, line);
-                self.pending = S::check_payout(info, line, &o);
+                let o = S::payout_on(&self.w.payout_resp(info), line);
+                self.pending = self.check_payout(info, line, &o);
                 o
             }
             "cpay" => match self.w.coll.clone() {
                 None => "err".into(),
                 Some(c) => {
                     self.w.set_time(kv_u64(line, "at").unwrap());
-                    let resp: CollectionInfoResponse = self.w.app.wrap().query_wasm_smart(&c, &QueryMsg::CollectionInfo {}).expect("CollectionInfo");
+                    // what a marketplace does: typed CollectionInfo query, then the helper on the answer
+                    let resp: CollectionInfoResponse = self.w.app.wrap().query_wasm_smart(&c, &json!({"collection_info": {}})).expect("CollectionInfo");
                     let o = S::payout_on(&resp, line);
-                    let info = resp.royalty_info.as_ref().map(|r| (addr_id(&r.payment_address), r.share.atomics().u128()));
-                    self.pending = S::check_payout(info, line, &o);
+                    // judged against the royalty the harness last got accepted, not against what the query says
+                    let info = self.g.as_ref().and_then(|g| g.roy);
+                    self.pending = self.check_payout(info, line, &o);
                     o
                 }
             },
             "inst" => {
                 let ok = if self.w.coll.is_some() { false } else { self.do_inst(line) };
-                self.state_answer(ok)
+                let out = self.state_answer(ok);
+                self.pending = self.judge(&op, line, ok, &out);
+                out
             }
-            "upd" | "freeze" | "stt" | "other" => {
+            "upd" | "freeze" | "stt" | "other" | "migrate" | "setver" => {
                 if self.w.coll.is_none() {
-                    if op == "stt" || op == "other" {
+                    if witnessed {
                         model_line.push_str(" ok=0");
                     }
                     "err none".into()
                 } else {
-                    self.w.set_time(kv_u64(line, "at").unwrap());
-                    let ok = match op {
-                        "upd" => self.do_upd(line),
-                        "freeze" => self.w.exec_coll(kv_u64(line, "sender").unwrap(), &sg721::ExecuteMsg::FreezeCollectionInfo),
-                        "stt" => {
-                            let t = kv_opt_u64(line, "time").unwrap().map(Timestamp::from_nanos);
-                            self.w.exec_coll(kv_u64(line, "sender").unwrap(), &sg721::ExecuteMsg::UpdateStartTradingTime(t))
+                    if let Some(at) = kv_u64(line, "at") {
+                        self.w.set_time(at);
+                    }
+                    let ok = match op.as_str() {
+                        "upd" => {
+                            let m = self.w.upd_msg(line);
+                            self.w.exec_coll(kv_u64(line, "sender").unwrap(), &m)
                         }
-                        _ => self.do_other(line),
+                        "freeze" => {
+                            let m = self.w.freeze_msg();
+                            self.w.exec_coll(kv_u64(line, "sender").unwrap(), &m)
+                        }
+                        "stt" => {
+                            let m = json!({"update_start_trading_time": kv_opt_u64(line, "time").unwrap().map(|t| t.to_string())});
+                            self.w.exec_coll(kv_u64(line, "sender").unwrap(), &m)
+                        }
+                        "other" => {
+                            let m = self.w.other_msg(kv(line, "v").unwrap(), kv_u64(line, "tok").unwrap());
+                            self.w.exec_coll(kv_u64(line, "sender").unwrap(), &m)
+                        }
+                        "migrate" => self.do_migrate(line),
+                        _ => self.do_setver(line),
                     };
-                    if op == "stt" || op == "other" {
+                    if witnessed {
                         model_line.push_str(if ok { " ok=1" } else { " ok=0" });
                     }
-                    self.state_answer(ok)
+                    let out = self.state_answer(ok);
+                    self.pending = self.judge(&op, line, ok, &out);
+                    out
                 }
             }
             _ => "bad-op".into(),
         };
-        self.last_line = line.to_string();
-        self.last_out = out.clone();
         (model_line, out)
     }
 
-    /// Direct transcription of C10 on the implementation's own observations (independent of the Lean model).
     fn monitor(&mut self) -> Option<(String, String)> {
-        if let Some(p) = self.pending.take() {
-            return Some(p);
-        }
-        let line = self.last_line.clone();
-        let out = self.last_out.clone();
-        let op = line.split_whitespace().next()?.to_string();
-        if !matches!(op.as_str(), "inst" | "upd" | "freeze" | "stt" | "other") {
-            return None;
-        }
-        let ok = out.starts_with("ok");
-        let at = kv_u64(&line, "at")?;
-        let (prev, cur) = (self.prev.clone(), self.cur.clone());
-        let bad = |p: &str, w: String| Some((format!("sg721-base/{op}/{p}"), format!("{w}; op `{line}` => `{out}`")));
-        // "never above 100%, at creation or after any update"
-        if let Some(Obs { roy: Some((_, s)), .. }) = &cur {
-            if *s > ONE {
-                return bad("share-above-100", format!("stored royalty share {s} atomics is above 100%"));
-            }
-        }
-        if op == "inst" {
-            if ok && prev.is_none() {
-                self.last_change = Some(at);
-            }
-            return None;
-        }
-        let (Some(prev), Some(cur)) = (prev, cur) else { return None };
-        let roy_set = if op == "upd" { kv(&line, "roy").and_then(parse_roy) } else { None };
-        let changed = prev.roy != cur.roy;
-        // "an update that raises the share raises it by at most 2 percentage points and to at most 10%"
-        if let (Some((_, o)), Some((_, n))) = (prev.roy, cur.roy) {
-            if n > o {
-                if n - o > 2 * PCT {
-                    return bad("raise-above-2pp", format!("share raised from {o} to {n}: more than 2 percentage points"));
-                }
-                if n > 10 * PCT {
-                    return bad("raise-above-10pct", format!("share raised from {o} to {n}: above 10%"));
-                }
-            }
-        }
-        // "any royalty change is accepted at most once per 24 hours" (first change: 24 h after creation)
-        let accepted_update = ok && roy_set.is_some();
-        let last_before = self.last_change;
-        if changed || accepted_update {
-            if let Some(last) = self.last_change {
-                if (at as u128) < last as u128 + DAY as u128 {
-                    return bad("cadence", format!("royalty change accepted at {at}, less than 24h after the previous change/creation at {last}"));
-                }
-            }
-            self.last_change = Some(at);
-        }
-        // "lowering is always allowed within that cadence" — by the creator, on an unfrozen collection, all other fields valid
-        if let (Some((ad, s)), Some((_, o)), Some(last)) = (roy_set, prev.roy, last_before) {
-            let sender = kv_u64(&line, "sender")?;
-            let valid_addr = |x: u64| x != 0 && x != 5;
-            let others_valid = kv_opt_u64(&line, "desc")?.map_or(true, |n| n <= 512)
-                && kv_opt_u64(&line, "image")?.map_or(true, |i| i % 2 == 0)
-                && match kv(&line, "link")? {
-                    "keep" | "clear" => true,
-                    v => v.parse::<u64>().ok()? % 2 == 0,
-                }
-                && kv_opt_u64(&line, "creator")?.map_or(true, valid_addr);
-            if s <= o && sender == prev.creator && !prev.frozen && at as u128 >= last as u128 + DAY as u128 && valid_addr(ad) && others_valid {
-                if !ok || cur.roy != Some((ad, s)) {
-                    return bad("lower-rejected", format!("lowering the share from {o} to {s} by the creator, 24h after {last}, was not applied"));
-                }
-            }
-        }
-        None
-    }
-}
-
-impl S {
-    fn state_answer(&mut self, ok: bool) -> String {
-        self.prev = self.cur.take();
-        self.cur = self.w.observe();
-        format!("{} {}", if ok { "ok" } else { "err" }, Obs::render(&self.cur))
+        self.pending.take()
     }
 }
 
@@ -512,12 +863,27 @@ impl S {
 
 #[derive(Clone)]
 struct Track {
-    obs: Option<Obs>,
+    seen: Option<Seen>,
     now: u64,
+    /// the generator's own record of the last accepted royalty change (from ok/err of what it sent), not the stored anchor
+    last: u64,
+    kind: Kind,
+}
+
+fn o2(ans: &str) -> &str {
+    &ans[..2.min(ans.len())]
+}
+fn o1(ans: &str) -> char {
+    if ans.starts_with("ok") {
+        'o'
+    } else {
+        'e'
+    }
 }
 
 fn time_choice(rng: &mut Rng, tr: &Track) -> (u64, &'static str) {
-    let base = tr.obs.as_ref().map(|o| o.upd).unwrap_or(tr.now);
+    // mostly around the harness's own record of the last change; sometimes around the anchor the contract stores
+    let base = if rng.chance(1, 4) { tr.seen.as_ref().map(|o| o.upd).unwrap_or(tr.last) } else { tr.last };
     let edge = base + DAY;
     match rng.below(24) {
         0..=1 => (edge - 1, "edge-1"),
@@ -545,7 +911,7 @@ fn share_choice(rng: &mut Rng, old: Option<u128>) -> (u128, String) {
         (7..=8, Some(o)) => o + 2 * PCT,
         (9, Some(o)) => o + 2 * PCT + 1,
         (10, Some(o)) => o + rng.below(2 * PCT as u64 + 1) as u128, // raise within the delta
-        (11, Some(o)) => rng.below(o as u64 + 1) as u128,          // any lower value
+        (11, Some(o)) => rng.below(o.min(u64::MAX as u128 - 1) as u64 + 1) as u128, // any lower value
         (12, _) => rng.sized_u128(128),                            // anything a Decimal can hold
         (13, _) => rng.below(12 * PCT as u64) as u128,
         _ => *rng.pick(&fixed),
@@ -598,7 +964,11 @@ fn addr_choice(rng: &mut Rng) -> u64 {
     }
 }
 
-fn gen_inst(rng: &mut Rng, at: u64, valid: bool) -> String {
+fn inst_line(kind: Kind, at: u64, creator: u64, roy: &Option<(u64, u128)>) -> String {
+    format!("inst kind={} at={at} via=1 funds=0 minter={STUB_ID} creator={creator} desc=3 image=2 link=- explicit=- stt=- roy={}", kind.name(), fmt_roy(roy))
+}
+
+fn gen_inst(rng: &mut Rng, kind: Kind, at: u64, valid: bool) -> String {
     let mut via = 1;
     let mut funds = 0;
     let mut minter = STUB_ID;
@@ -634,12 +1004,10 @@ fn gen_inst(rng: &mut Rng, at: u64, valid: bool) -> String {
     let explicit = *rng.pick(&["-", "0", "1"]);
     let stt = if rng.chance(1, 2) { "-".to_string() } else { (at + rng.below(DAY)).to_string() };
     format!(
-        "inst at={at} via={via} funds={funds} minter={minter} creator={creator} desc={desc} image={image} link={} explicit={explicit} stt={stt} roy={}",
+        "inst kind={} at={at} via={via} funds={funds} minter={minter} creator={creator} desc={desc} image={image} link={} explicit={explicit} stt={stt} roy={}",
+        kind.name(),
         fmt_opt(&link),
-        match roy {
-            None => "-".to_string(),
-            Some((a, s)) => format!("{a}:{s}"),
-        }
+        fmt_roy(&roy)
     )
 }
 
@@ -671,27 +1039,52 @@ impl UpdSpec {
         )
     }
 }
+/// a plain royalty update: `upd` carrying nothing but `royalty_info`
+fn roy_upd(ses: &mut Session, sut: &mut S, at: u64, sender: u64, ad: u64, share: u128) -> String {
+    ses.step(sut, &UpdSpec::plain(at, sender, format!("{ad}:{share}")).line())
+}
 
-fn follow(tr: &mut Track, ans: &str, at: u64) {
-    if let Some(o) = Obs::parse(ans) {
-        tr.obs = Some(o);
+fn follow(tr: &mut Track, line: &str, ans: &str, at: u64) {
+    if let Some(o) = Seen::parse(ans) {
+        tr.seen = Some(o);
+    }
+    if line.starts_with("inst ") && ans.starts_with("ok") {
+        tr.last = at;
+    }
+    if line.starts_with("upd ") && ans.starts_with("ok") && kv(line, "roy").and_then(parse_roy).is_some() {
+        tr.last = at;
+    }
+    if line.starts_with("migrate ") && ans.starts_with("ok") {
+        if let Some(k) = kv(line, "to").and_then(Kind::parse) {
+            tr.kind = k;
+        }
     }
     tr.now = at;
 }
 
-/// one random op on a live collection; returns the class key
-fn random_op(ses: &mut Session, sut: &mut S, rng: &mut Rng, tr: &mut Track) {
-    let creator = tr.obs.as_ref().map(|o| o.creator).unwrap_or(10);
-    let old = tr.obs.as_ref().and_then(|o| o.roy).map(|r| r.1);
-    let frozen = tr.obs.as_ref().map(|o| o.frozen).unwrap_or(false);
+/// every variant name any of the four schemas knows (minus the ones with their own op), plus one nobody knows
+fn all_other_names(schemas: &[Value; 4]) -> Vec<String> {
+    let mut v: Vec<String> = schemas.iter().flat_map(|s| schema_variants(s).into_iter().map(|x| x.0)).filter(|n| !OWN_OPS.contains(&n.as_str())).collect();
+    v.push("no_such_message".into());
+    v.sort();
+    v.dedup();
+    v
+}
+
+/// one random op on a live collection
+fn random_op(ses: &mut Session, sut: &mut S, rng: &mut Rng, tr: &mut Track, names: &[String]) {
+    let creator = tr.seen.as_ref().map(|o| o.creator).unwrap_or(10);
+    let old = tr.seen.as_ref().and_then(|o| o.roy).map(|r| r.1);
+    let frozen = tr.seen.as_ref().map(|o| o.frozen).unwrap_or(false);
     let (at, tclass) = time_choice(rng, tr);
+    let k = tr.kind.name();
     let sender = match rng.below(16) {
         0 => 10 + rng.below(4),
         1 => STUB_ID,
         _ => creator,
     };
     let who = if sender == creator { "creator" } else { "stranger" };
-    match rng.below(130) {
+    match rng.below(132) {
         100..=129 | 0..=69 => {
             let (royk, roy, sclass) = match rng.below(12) {
                 0 => ("keep", "keep".to_string(), "-".to_string()),
@@ -722,39 +1115,104 @@ fn random_op(ses: &mut Session, sut: &mut S, rng: &mut Rng, tr: &mut Track) {
                     u.creator = Some(addr_choice(rng));
                 }
             }
-            let ans = ses.step(sut, &u.line());
-            let outcome = ans.split(' ').next().unwrap_or("?").to_string();
-            ses.mark(format!("upd:{royk}:{tclass}:{sclass}:{who}:{}:{other}:{outcome}", if frozen { "frozen" } else { "live" }));
-            follow(tr, &ans, at);
+            let line = u.line();
+            let ans = ses.step(sut, &line);
+            ses.mark(format!("upd:{k}:{royk}:{tclass}:{sclass}:{who}:{}:{other}:{}", if frozen { "frozen" } else { "live" }, o2(&ans)));
+            follow(tr, &line, &ans, at);
         }
         70 => {
-            let ans = ses.step(sut, &format!("freeze at={at} sender={sender}"));
-            ses.mark(format!("freeze:{who}:{}", &ans[..2]));
-            follow(tr, &ans, at);
+            let line = format!("freeze at={at} sender={sender}");
+            let ans = ses.step(sut, &line);
+            ses.mark(format!("freeze:{k}:{who}:{}", o2(&ans)));
+            follow(tr, &line, &ans, at);
         }
         71..=79 => {
             let time = if rng.chance(1, 4) { "-".to_string() } else { (at + rng.below(DAY)).to_string() };
             let s = if rng.chance(2, 3) { STUB_ID } else { sender };
-            let ans = ses.step(sut, &format!("stt at={at} sender={s} time={time}"));
-            ses.mark(format!("stt:{}:{}", if s == STUB_ID { "minter" } else { "other" }, &ans[..2]));
-            follow(tr, &ans, at);
+            let line = format!("stt at={at} sender={s} time={time}");
+            let ans = ses.step(sut, &line);
+            ses.mark(format!("stt:{k}:{}:{}", if s == STUB_ID { "minter" } else { "other" }, o2(&ans)));
+            follow(tr, &line, &ans, at);
         }
         80..=91 => {
-            let kind = *rng.pick(&[0u64, 0, 0, 1, 2, 3, 4, 5, 6, 7, 8, 9, 10, 12]);
-            let s = if kind == 0 && rng.chance(3, 4) { STUB_ID } else { 10 + rng.below(4) };
-            let ans = ses.step(sut, &format!("other at={at} sender={s} kind={kind} tok={}", rng.below(6)));
-            ses.mark(format!("other:{kind}:{}", &ans[..2]));
-            follow(tr, &ans, at);
+            let v = if rng.chance(1, 3) { "mint".to_string() } else { rng.pick(names).clone() };
+            let s = if v == "mint" && rng.chance(3, 4) { STUB_ID } else { 10 + rng.below(4) };
+            let line = format!("other at={at} sender={s} v={v} tok={}", rng.below(6));
+            let ans = ses.step(sut, &line);
+            ses.mark(format!("other:{k}:{v}:{}", o2(&ans)));
+            follow(tr, &line, &ans, at);
+        }
+        130..=131 => {
+            let to = if tr.kind == Kind::Base && rng.chance(2, 3) { Kind::Updatable } else { *rng.pick(&KINDS) };
+            let line = format!("migrate at={at} to={}", to.name());
+            let ans = ses.step(sut, &line);
+            ses.mark(format!("migrate:{k}->{}:{}", to.name(), o2(&ans)));
+            follow(tr, &line, &ans, at);
         }
         _ => {
             let pay = rng.sized_u128(70);
             let fee = pay / 50;
             let finders = if rng.chance(1, 2) { "-".to_string() } else { (pay / 100).to_string() };
             let ans = ses.step(sut, &format!("cpay at={at} pay={pay} fee={fee} finders={finders}"));
-            ses.mark(format!("cpay:{}:{}", old.map_or("none", |s| if s == 0 { "zero" } else { "some" }), &ans[..2]));
+            ses.mark(format!("cpay:{k}:{}:{}", old.map_or("none", |s| if s == 0 { "zero" } else { "some" }), o2(&ans)));
             tr.now = at;
         }
     }
+}
+
+/// after `last` (the harness's record of the last accepted change): a lowering 1 ns too early must be refused (monitor `cadence`
+/// if not), at exactly +24 h it must be accepted (`lower-rejected` if not), a second one in the same instant refused again.
+/// Returns (outcomes, new last, new share).
+fn cadence_probe(ses: &mut Session, sut: &mut S, sender: u64, last: u64, share: u128) -> (String, u64, u128) {
+    let s1 = share.saturating_sub(1);
+    let s2 = share.saturating_sub(2);
+    let a1 = roy_upd(ses, sut, last + DAY - 1, sender, 11, s1);
+    let a2 = roy_upd(ses, sut, last + DAY, sender, 12, s1);
+    let a3 = roy_upd(ses, sut, last + DAY, sender, 11, s2);
+    let out: String = [&a1, &a2, &a3].iter().map(|a| o1(a)).collect();
+    if a2.starts_with("ok") {
+        (out, last + DAY, s1)
+    } else {
+        (out, last, share)
+    }
+}
+
+const KNOWN_OTHER: [&str; 3] = ["extension", "freeze_token_metadata", "enable_updatable"];
+const T0: u64 = 1_647_032_400_000_000_000;
+
+/// send every ExecuteMsg variant the RUNNING contract's schema lists (except the three with their own op) from three senders,
+/// then every name only OTHER kinds know; marks `sent:<kind>:<variant>`; returns the names nobody has a hand-written message for
+fn surface_tour(ses: &mut Session, sut: &mut S, kind: Kind, at: u64, all: &[String]) -> Vec<String> {
+    let k = kind.name();
+    let mut mine: Vec<String> = schema_variants(&exec_schema(kind)).into_iter().map(|x| x.0).collect();
+    // messages that end something (freeze…, burn) go last so that the others still have something to act on
+    mine.sort_by_key(|v| (v.starts_with("freeze") || v.starts_with("burn"), v.clone()));
+    let mut unknown = vec![];
+    for v in &mine {
+        if OWN_OPS.contains(&v.as_str()) {
+            ses.mark(format!("sent:{k}:{v}"));
+            continue;
+        }
+        if !HAND_BUILT.contains(&v.as_str()) && !KNOWN_OTHER.contains(&v.as_str()) {
+            unknown.push(v.clone());
+            ses.mark(format!("unknown-variant:{k}:{v}"));
+        }
+        let mut outs = String::new();
+        // tokens 1..3 exist (minted by the tour's preamble to acct11, acct12, acct13): creator, minter, owner, stranger, other owner
+        for (sender, tok) in [(10u64, 1u64), (STUB_ID, 1), (11, 1), (13, 1), (12, 2), (STUB_ID, 6)] {
+            let ans = ses.step(sut, &format!("other at={at} sender={sender} v={v} tok={tok}"));
+            outs.push(o1(&ans));
+        }
+        ses.mark(format!("sent:{k}:{v}"));
+        ses.mark(format!("tour:{k}:{v}:{outs}"));
+    }
+    for v in all {
+        if !mine.contains(v) {
+            let ans = ses.step(sut, &format!("other at={at} sender=10 v={v} tok=1"));
+            ses.mark(format!("foreign:{k}:{v}:{}", o2(&ans)));
+        }
+    }
+    unknown
 }
 
 fn main() {
@@ -764,87 +1222,236 @@ fn main() {
         ses.finish(&mut sut);
     }
     let mut rng = ses.rng.fork();
-    let t0: u64 = 1_647_032_400_000_000_000;
+    let t0 = T0;
+    let all_names = all_other_names(&sut.schemas);
 
-    // ---- 1. boundary grid: initial share × new share (relative + absolute bounds ± 1) × time (24 h ± 1 ns)
+    // ---- 0. message surface, per kind, enumerated from the JSON schema at run time; nothing but an accepted royalty update may
+    //         change the royalty (ghost monitor), and the cadence is where the harness left it afterwards
+    for kind in KINDS {
+        let k = kind.name();
+        ses.begin_case(&mut sut, &format!("case tour kind={k}"));
+        ses.step(&mut sut, &inst_line(kind, t0, 10, &Some((11, 5 * PCT))));
+        for tok in 1..=3 {
+            ses.step(&mut sut, &format!("other at={} sender={STUB_ID} v=mint tok={tok}", t0 + 1));
+        }
+        let t1 = t0 + DAY + 5;
+        let a = roy_upd(&mut ses, &mut sut, t1, 10, 12, 5 * PCT - 7);
+        let mut unknown = surface_tour(&mut ses, &mut sut, kind, t1 + 10, &all_names);
+        ses.step(&mut sut, &format!("stt at={} sender={STUB_ID} time={}", t1 + 11, t1 + 5000));
+        let (p, mut last, mut share) = cadence_probe(&mut ses, &mut sut, 10, t1, 5 * PCT - 7);
+        ses.mark(format!("tour-probe:{k}:{}{p}", o1(&a)));
+        if kind == Kind::Base {
+            // the same instance upgraded to sg721-updatable: its new surface, and the cadence again
+            let m = ses.step(&mut sut, &format!("migrate at={} to=updatable", last + 1));
+            let soon = roy_upd(&mut ses, &mut sut, last + 1, 10, 11, share - 1);
+            unknown.extend(surface_tour(&mut ses, &mut sut, Kind::Updatable, last + 20, &all_names));
+            let (p2, l2, s2) = cadence_probe(&mut ses, &mut sut, 10, last, share);
+            ses.mark(format!("tour-probe:base->updatable:{}{}{p2}", o1(&m), o1(&soon)));
+            last = l2;
+            share = s2;
+        }
+        let f = ses.step(&mut sut, &format!("freeze at={} sender=10", last + 5));
+        let af = roy_upd(&mut ses, &mut sut, last + 2 * DAY, 10, 11, share.saturating_sub(5));
+        ses.mark(format!("tour-freeze:{k}:{}{}", o1(&f), o1(&af)));
+        ses.end_case();
+        if !unknown.is_empty() {
+            ses.note(format!("kind {k}: ExecuteMsg variants without a hand-written message, sent with minimal arguments from the schema: {unknown:?}"));
+        }
+    }
+
+    // ---- 1. boundary grid per kind: initial share × new share (relative + absolute bounds ± 1) × time (24 h ± 1 ns)
     let initials: Vec<Option<u128>> = vec![None, Some(0), Some(1), Some(5 * PCT), Some(8 * PCT), Some(8 * PCT + 1), Some(10 * PCT - 1), Some(10 * PCT), Some(10 * PCT + 1), Some(50 * PCT), Some(ONE)];
     let mut grid_cases = 0u64;
-    for init in &initials {
-        let mut news: Vec<u128> = vec![0, 1, 2 * PCT - 1, 2 * PCT, 2 * PCT + 1, 10 * PCT - 1, 10 * PCT, 10 * PCT + 1, ONE - 1, ONE, ONE + 1];
-        if let Some(o) = init {
-            for d in [0i128, 1, -1, (2 * PCT) as i128 - 1, (2 * PCT) as i128, (2 * PCT) as i128 + 1] {
-                let v = *o as i128 + d;
-                if v >= 0 {
-                    news.push(v as u128);
+    for kind in KINDS {
+        let k = kind.name();
+        for init in &initials {
+            let mut news: Vec<u128> = vec![0, 1, 2 * PCT - 1, 2 * PCT, 2 * PCT + 1, 10 * PCT - 1, 10 * PCT, 10 * PCT + 1, ONE - 1, ONE, ONE + 1];
+            if let Some(o) = init {
+                for d in [0i128, 1, -1, (2 * PCT) as i128 - 1, (2 * PCT) as i128, (2 * PCT) as i128 + 1] {
+                    let v = *o as i128 + d;
+                    if v >= 0 {
+                        news.push(v as u128);
+                    }
+                }
+            }
+            news.sort();
+            news.dedup();
+            for n in &news {
+                for (dt, tname) in [(DAY - 1, "edge-1"), (DAY, "edge"), (DAY + 1, "edge+1")] {
+                    ses.begin_case(&mut sut, &format!("case grid kind={k} init={} new={n} dt={tname}", fmt_opt(init)));
+                    ses.step(&mut sut, &inst_line(kind, t0, 10, &init.map(|s| (11, s))));
+                    let ans = roy_upd(&mut ses, &mut sut, t0 + dt, 10, 12, *n);
+                    ses.mark(format!("grid:{k}:{}:{tname}:{}", share_class(*init, *n), o2(&ans)));
+                    // the harness's own record of the last change decides where the next attempts go
+                    let last = if ans.starts_with("ok") { t0 + dt } else { t0 };
+                    let cur = if ans.starts_with("ok") { Some(*n) } else { *init };
+                    let low = cur.map_or(*n / 2, |c| c / 2);
+                    let a2 = roy_upd(&mut ses, &mut sut, last + DAY - 1, 10, 12, low);
+                    let a3 = roy_upd(&mut ses, &mut sut, last + DAY, 10, 11, low);
+                    let a4 = roy_upd(&mut ses, &mut sut, last + DAY, 10, 11, low / 2); // same block again
+                    let a5 = roy_upd(&mut ses, &mut sut, last + 2 * DAY - 1, 10, 11, low / 2);
+                    ses.mark(format!("grid2:{k}:{}:{}{}{}{}", if cur.is_some() { "roy" } else { "noroy" }, o1(&a2), o1(&a3), o1(&a4), o1(&a5)));
+                    ses.step(&mut sut, &format!("cpay at={} pay=1000000007 fee=20000000 finders=-", last + 2 * DAY));
+                    ses.end_case();
+                    grid_cases += 1;
                 }
             }
         }
-        news.sort();
-        news.dedup();
-        for n in &news {
-            for (dt, tname) in [(DAY - 1, "edge-1"), (DAY, "edge"), (DAY + 1, "edge+1")] {
-                ses.begin_case(&mut sut, &format!("case grid init={} new={n} dt={tname}", fmt_opt(init)));
-                let roy0 = init.map_or("-".to_string(), |s| format!("11:{s}"));
-                ses.step(&mut sut, &format!("inst at={t0} via=1 funds=0 minter={STUB_ID} creator=10 desc=3 image=2 link=- explicit=- stt=- roy={roy0}"));
-                let ans = ses.step(&mut sut, &UpdSpec::plain(t0 + dt, 10, format!("12:{n}")).line());
-                ses.mark(format!("grid:{}:{tname}:{}", share_class(*init, *n), &ans[..2]));
-                // second attempt exactly 24 h after whatever the anchor is now: same share again, then a lowering
-                let anchor = Obs::parse(&ans).map(|o| o.upd).unwrap_or(t0);
-                let ans2 = ses.step(&mut sut, &UpdSpec::plain(anchor + DAY - 1, 10, format!("12:{n}")).line());
-                let ans3 = ses.step(&mut sut, &UpdSpec::plain(anchor + DAY, 10, format!("11:{}", n / 2)).line());
-                ses.mark(format!("grid2:{}:{}", &ans2[..2], &ans3[..2]));
-                ses.step(&mut sut, &format!("cpay at={} pay=1000000007 fee=20000000 finders=-", anchor + DAY));
-                ses.end_case();
-                grid_cases += 1;
+    }
+    ses.note(format!("grid: {grid_cases} cases = kind {{base,nt,updatable,onchain}} x initial share {{none,0,1,5%,8%,8%+1,10%-1,10%,10%+1,50%,100%}} x new share {{0,1,2%±1,10%±1,100%±1,old,old±1,old+2%±1}} x first update at creation+24h {{-1ns,0,+1ns}}, then lowering at last+24h-1ns / +24h / +24h again (same block) / +48h-1ns"));
+
+    // ---- 2. climbs per kind: repeated maximal raises, each exactly at the 24 h edge (can small raises pass 10 %?)
+    for kind in KINDS {
+        let k = kind.name();
+        for (i, start) in [0u128, 1, PCT / 2, 3 * PCT, 4 * PCT + 1, 9 * PCT].iter().enumerate() {
+            ses.begin_case(&mut sut, &format!("case climb kind={k} start={start}"));
+            let mut at = t0 + i as u64;
+            ses.step(&mut sut, &format!("inst kind={k} at={at} via=1 funds=0 minter={STUB_ID} creator=10 desc=3 image=2 link=4 explicit=1 stt=- roy=11:{start}"));
+            let mut cur = *start;
+            for stepn in 0..9 {
+                at += DAY;
+                // try an over-sized raise first (must fail), then the maximal legal one, then one more in the same instant
+                let a1 = roy_upd(&mut ses, &mut sut, at, 10, 11, cur + 2 * PCT + 1);
+                let target = (cur + 2 * PCT).min(if cur < 10 * PCT { 10 * PCT } else { cur });
+                let a2 = roy_upd(&mut ses, &mut sut, at, 10, 11, target);
+                let a3 = roy_upd(&mut ses, &mut sut, at, 10, 11, target + 1);
+                if a2.starts_with("ok") {
+                    cur = target;
+                }
+                ses.mark(format!("climb:{k}:{stepn}:{}{}{}:{}", o1(&a1), o1(&a2), o1(&a3), if cur >= 10 * PCT { "at-cap" } else { "below-cap" }));
             }
+            // at the cap: +1 atomic must fail, lowering must pass
+            at += DAY;
+            let b1 = roy_upd(&mut ses, &mut sut, at, 10, 11, cur + 1);
+            let b2 = roy_upd(&mut ses, &mut sut, at, 10, 11, cur - 1);
+            ses.mark(format!("climb-end:{k}:{}{}", o1(&b1), o1(&b2)));
+            ses.end_case();
         }
     }
-    ses.note(format!("grid: {grid_cases} cases = initial share {{none,0,1,5%,8%,8%+1,10%-1,10%,10%+1,50%,100%}} x new share {{0,1,2%±1,10%±1,100%±1,old,old±1,old+2%±1}} x first update at creation+24h {{-1ns,0,+1ns}}"));
 
-    // ---- 2. climbs: repeated maximal raises, each exactly at the 24 h edge (can small raises pass 10 %?)
-    for (i, start) in [0u128, 1, PCT / 2, 3 * PCT, 4 * PCT + 1, 9 * PCT].iter().enumerate() {
-        ses.begin_case(&mut sut, &format!("case climb start={start}"));
-        let mut at = t0 + i as u64;
-        ses.step(&mut sut, &format!("inst at={at} via=1 funds=0 minter={STUB_ID} creator=10 desc=3 image=2 link=4 explicit=1 stt=- roy=11:{start}"));
-        let mut cur = *start;
-        for stepn in 0..9 {
-            at += DAY;
-            // try an over-sized raise first (must fail), then the maximal legal one, then one more in the same instant
-            let a1 = ses.step(&mut sut, &UpdSpec::plain(at, 10, format!("11:{}", cur + 2 * PCT + 1)).line());
-            let target = (cur + 2 * PCT).min(if cur < 10 * PCT { 10 * PCT } else { cur });
-            let a2 = ses.step(&mut sut, &UpdSpec::plain(at, 10, format!("11:{target}")).line());
-            let a3 = ses.step(&mut sut, &UpdSpec::plain(at, 10, format!("11:{}", target + 1)).line());
-            if let Some(o) = Obs::parse(&a2) {
-                cur = o.roy.map(|r| r.1).unwrap_or(cur);
-            }
-            ses.mark(format!("climb:{stepn}:{}:{}:{}:{}", &a1[..2], &a2[..2], &a3[..2], if cur >= 10 * PCT { "at-cap" } else { "below-cap" }));
-        }
-        // at the cap: +1 atomic must fail, lowering must pass
-        at += DAY;
-        ses.step(&mut sut, &UpdSpec::plain(at, 10, format!("11:{}", cur + 1)).line());
-        ses.step(&mut sut, &UpdSpec::plain(at, 10, format!("11:{}", cur - 1)).line());
+    // ---- 3. something else happens BETWEEN two royalty updates (per kind): it must neither consume nor reset the cadence
+    for kind in KINDS {
+        let k = kind.name();
+        ses.begin_case(&mut sut, &format!("case between kind={k}"));
+        ses.step(&mut sut, &inst_line(kind, t0, 10, &Some((11, 6 * PCT))));
+        let t1 = t0 + DAY;
+        let mut o = String::new();
+        o.push(o1(&roy_upd(&mut ses, &mut sut, t1, 10, 11, 5 * PCT))); // accepted: last = t1
+        let mut f = UpdSpec::plain(t1 + DAY - 1, 10, "keep".into());
+        f.desc = Some(7);
+        f.explicit = "1";
+        o.push(o1(&ses.step(&mut sut, &f.line()))); // fields only, 1 ns before the edge: must not move the anchor either way
+        o.push(o1(&roy_upd(&mut ses, &mut sut, t1 + DAY - 1, 10, 11, 4 * PCT))); // too soon
+        ses.step(&mut sut, &format!("stt at={} sender={STUB_ID} time=-", t1 + DAY - 1));
+        ses.step(&mut sut, &format!("other at={} sender={STUB_ID} v=mint tok=1", t1 + DAY - 1));
+        ses.step(&mut sut, &format!("migrate at={} to={k}", t1 + DAY - 1));
+        o.push(o1(&roy_upd(&mut ses, &mut sut, t1 + DAY - 1, 10, 11, 4 * PCT))); // still too soon
+        o.push(o1(&roy_upd(&mut ses, &mut sut, t1 + DAY, 10, 12, 4 * PCT))); // due: last = t2
+        let t2 = t1 + DAY;
+        let mut c = UpdSpec::plain(t2 + 1, 10, "keep".into());
+        c.creator = Some(11);
+        o.push(o1(&ses.step(&mut sut, &c.line()))); // creator 10 -> 11
+        o.push(o1(&roy_upd(&mut ses, &mut sut, t2 + DAY, 10, 12, 3 * PCT))); // old creator
+        o.push(o1(&roy_upd(&mut ses, &mut sut, t2 + DAY, 11, 12, 3 * PCT))); // new creator, due: last = t3
+        let t3 = t2 + DAY;
+        o.push(o1(&roy_upd(&mut ses, &mut sut, t3 + DAY, 11, 12, 3 * PCT + 2 * PCT + 1))); // refused raise …
+        o.push(o1(&roy_upd(&mut ses, &mut sut, t3 + DAY, 11, 0, 2 * PCT))); // … refused address …
+        o.push(o1(&roy_upd(&mut ses, &mut sut, t3 + DAY, 11, 12, 2 * PCT))); // … do not consume the cadence
+        o.push(o1(&roy_upd(&mut ses, &mut sut, t3 + DAY, 11, 12, PCT))); // but the accepted one does
+        ses.mark(format!("between:{k}:{o}"));
         ses.end_case();
     }
 
-    // ---- 3. random lifetimes
+    // ---- 4. migrations
+    // 4a. stored-version boundary of `v3_1_0::upgrade` (3.0.99 rewinds the anchor, 3.1.0 does not); no royalty change is
+    //     attempted less than 24 h after the previous one, so the literal cadence clause is not in question here
+    for (kind, to) in [(Kind::Updatable, Kind::Updatable), (Kind::Base, Kind::Updatable), (Kind::Onchain, Kind::Onchain), (Kind::Nt, Kind::Nt)] {
+        for v in ["2.9.0", "3.0.0", "3.0.99", "3.1.0", "3.1.1", "3.15.0", "-"] {
+            let k = kind.name();
+            ses.begin_case(&mut sut, &format!("case migver kind={k} to={} v={v}", to.name()));
+            ses.step(&mut sut, &inst_line(kind, t0, 10, &Some((11, 5 * PCT))));
+            let a0 = roy_upd(&mut ses, &mut sut, t0 + DAY, 10, 11, 4 * PCT);
+            let last = t0 + DAY;
+            if v != "-" {
+                ses.step(&mut sut, &format!("setver v={v}"));
+            }
+            let tm = last + DAY + 7;
+            let m = ses.step(&mut sut, &format!("migrate at={tm} to={}", to.name()));
+            let moved = Seen::parse(&m).map_or("?", |s| if s.upd == last { "norew" } else if s.upd == tm - DAY { "rew" } else { "other" });
+            let a1 = roy_upd(&mut ses, &mut sut, tm, 10, 12, 3 * PCT);
+            let (p, _, _) = cadence_probe(&mut ses, &mut sut, 10, tm, 3 * PCT);
+            ses.mark(format!("migver:{k}:{v}:{}:{moved}:{}{}{p}", o2(&m), o1(&a0), o1(&a1)));
+            ses.end_case();
+        }
+    }
+    // 4b. an upgrade 1 ns after a royalty change, then another change in the same instant: must be refused. Stored versions
+    //     (current code: base -> updatable is the upgrade path that exists on chain). For a fabricated stored version below
+    //     3.1.0 the code ACCEPTS (Lean `C10_cadence_upgrade_counterexample`, corpus/C10/upgrade-rewind.json): recorded as an
+    //     observation, not judged (decision: the property does not quantify over upgrades from pre-3.1.0 code).
+    let mut soon: Vec<(Kind, Kind, &str)> = vec![
+        (Kind::Base, Kind::Updatable, "-"),
+        (Kind::Base, Kind::Updatable, "3.1.0"),
+        (Kind::Updatable, Kind::Updatable, "3.1.0"),
+        (Kind::Updatable, Kind::Updatable, "3.15.0"),
+        (Kind::Onchain, Kind::Onchain, "3.0.0"),
+        (Kind::Onchain, Kind::Onchain, "3.15.0"),
+        (Kind::Nt, Kind::Nt, "3.0.0"),
+    ];
+    // documented observation, not a finding: fabricated pre-3.1.0 instances (corpus/C10/upgrade-rewind.json)
+    soon.push((Kind::Updatable, Kind::Updatable, "3.0.0"));
+    soon.push((Kind::Base, Kind::Updatable, "3.0.99"));
+    let mut rewind_seen = 0;
+    for (kind, to, v) in soon {
+        let k = kind.name();
+        ses.begin_case(&mut sut, &format!("case migsoon kind={k} to={} v={v}", to.name()));
+        ses.step(&mut sut, &inst_line(kind, t0, 10, &Some((11, 5 * PCT))));
+        let a0 = roy_upd(&mut ses, &mut sut, t0 + DAY, 10, 11, 4 * PCT);
+        let last = t0 + DAY;
+        if v != "-" {
+            ses.step(&mut sut, &format!("setver v={v}"));
+        }
+        let m = ses.step(&mut sut, &format!("migrate at={} to={}", last + 1, to.name()));
+        let a1 = roy_upd(&mut ses, &mut sut, last + 1, 10, 12, 3 * PCT);
+        // whatever happened, the cadence continues from the harness's own record of the last accepted change
+        let (from, share) = if a1.starts_with("ok") { (last + 1, 3 * PCT) } else { (last, 4 * PCT) };
+        let (p, _, _) = cadence_probe(&mut ses, &mut sut, 10, from, share);
+        ses.mark(format!("migsoon:{k}:{v}:{}:{}{}{p}", o2(&m), o1(&a0), o1(&a1)));
+        if parse_ver(v).map_or(false, |x| x < (3, 1, 0)) && to == Kind::Updatable && a1.starts_with("ok") {
+            ses.mark(format!("observed:upgrade-rewind:{k}:{v}"));
+            rewind_seen += 1;
+        }
+        ses.end_case();
+    }
+    if rewind_seen > 0 {
+        ses.note(format!("observation (not a finding, by decision): {rewind_seen} fabricated instances with a stored cw2 version below 3.1.0 accepted a royalty change, were upgraded to sg721-updatable 1 ns later (v3_1_0::upgrade rewinds royalty_updated_at) and accepted a second change at once; Lean C10_cadence_upgrade_counterexample; collections created by the current code: C10_no_rewind_reachable"));
+    }
+
+    // ---- 5. random lifetimes, random kind
     let n_life = ses.scale(1_500, 40_000);
-    for k in 0..n_life {
-        ses.begin_case(&mut sut, &format!("case life k={k}"));
-        let mut tr = Track { obs: None, now: t0 + rng.below(1000 * DAY) };
+    for n in 0..n_life {
+        let kind = match n % 5 {
+            0 | 1 => Kind::Base,
+            2 => Kind::Nt,
+            3 => Kind::Updatable,
+            _ => Kind::Onchain,
+        };
+        ses.begin_case(&mut sut, &format!("case life k={n} kind={}", kind.name()));
+        let start = t0 + rng.below(1000 * DAY);
+        let mut tr = Track { seen: None, now: start, last: start, kind };
         // possibly a few failing instantiates first (single-fault mutations), then a valid one
         let mut tries = 0;
         loop {
             let valid = tries >= 2 || rng.chance(4, 5);
-            let line = gen_inst(&mut rng, tr.now, valid);
+            let line = gen_inst(&mut rng, kind, tr.now, valid);
             let ans = ses.step(&mut sut, &line);
-            ses.mark(format!("inst:{}:{}", if valid { "valid" } else { "fault" }, &ans[..2]));
+            ses.mark(format!("inst:{}:{}:{}", kind.name(), if valid { "valid" } else { "fault" }, o2(&ans)));
             if !valid {
-                ses.count(&format!("inst-fault:{}", &ans[..2]));
+                ses.count(&format!("inst-fault:{}", o2(&ans)));
             }
             let now = tr.now;
-            follow(&mut tr, &ans, now);
+            follow(&mut tr, &line, &ans, now);
             tries += 1;
-            if tr.obs.is_some() || tries > 4 {
+            if tr.seen.is_some() || tries > 4 {
                 break;
             }
             if rng.chance(1, 3) {
@@ -854,17 +1461,17 @@ fn main() {
         }
         let n_ops = rng.range(8, 40);
         for _ in 0..n_ops {
-            random_op(&mut ses, &mut sut, &mut rng, &mut tr);
+            random_op(&mut ses, &mut sut, &mut rng, &mut tr, &all_names);
         }
         if rng.chance(1, 6) {
             // a second instantiate in the same case is refused by protocol convention (one collection per case)
-            let line = gen_inst(&mut rng, tr.now, true);
+            let line = gen_inst(&mut rng, kind, tr.now, true);
             ses.step(&mut sut, &line);
         }
         ses.end_case();
     }
 
-    // ---- 4. the payout helper, pure: dense grids + boundaries
+    // ---- 6. the payout helper, pure: dense grids + boundaries
     ses.begin_case(&mut sut, "case payout-dense");
     let dense = ses.scale(20_000, 400_000) as u128;
     let shares: [u128; 14] = [0, 1, PCT / 7, 2 * PCT - 1, 2 * PCT, 2 * PCT + 1, 5 * PCT, 10 * PCT - 1, 10 * PCT, 10 * PCT + 1, 333_333_333_333_333_333, ONE - 1, ONE, ONE + 1];
@@ -872,8 +1479,11 @@ fn main() {
         let share = shares[(pay % 14) as usize];
         let royalty = (Uint256::from(pay) * Uint256::from(share) / Uint256::from(ONE)).to_string().parse::<u128>().unwrap_or(u128::MAX);
         let room = pay.saturating_sub(royalty);
-        for (fee, finders) in [(0u128, None), (room, None), (room + 1, None), (room / 2, Some(room - room / 2)), (room / 2, Some(room - room / 2 + 1)), (room.saturating_sub(1), Some(0u128))] {
-            ses.step(&mut sut, &format!("payout roy=11:{share} pay={pay} fee={fee} finders={}", fmt_opt(&finders)));
+        for (j, (fee, finders)) in [(0u128, None), (room, None), (room + 1, None), (room / 2, Some(room - room / 2)), (room / 2, Some(room - room / 2 + 1)), (room.saturating_sub(1), Some(0u128))].iter().enumerate() {
+            let ans = ses.step(&mut sut, &format!("payout roy=11:{share} pay={pay} fee={fee} finders={}", fmt_opt(finders)));
+            if share != 0 && royalty > 0 {
+                ses.mark(format!("payout-edge:{}:{}", ["nofee", "room", "room+1", "split-room", "split-room+1", "room-1"][j], o2(&ans)));
+            }
         }
         if pay % 50 == 0 {
             ses.step(&mut sut, &format!("payout roy=- pay={pay} fee={} finders=-", pay + 5));
@@ -925,12 +1535,70 @@ fn main() {
             _ => (total, Some(if rel == 4 { rng.sized_u128(128) } else { 0 })),
         };
         let ans = ses.step(&mut sut, &format!("payout roy={roy} pay={pay} fee={fee} finders={}", fmt_opt(&finders)));
-        ses.mark(format!("payout:bits{}:rel{rel}:{}:{}", (128 - pay.leading_zeros()) / 8, if roy == "-" { "none" } else if share == 0 { "zero" } else if share > ONE { ">100" } else { "some" }, &ans[..2]));
+        ses.mark(format!("payout:bits{}:rel{rel}:{}:{}", (128 - pay.leading_zeros()) / 8, if roy == "-" { "none" } else if share == 0 { "zero" } else if share > ONE { ">100" } else { "some" }, o2(&ans)));
     }
     ses.end_case();
 
-    ses.note("times: first/next royalty update at anchor+24h {-1ns,0,+1ns}, sub-second offsets, same instant, backwards clock, far future; all < 2^62 ns");
+    // regression (defect repaired in /repo 00871d3, corpus/C10/payout-fees-exceed-zero-royalty.json): fees above the payment
+    // with no royalty due must be refused; at fees == payment nothing is paid
+    ses.begin_case(&mut sut, "case corpus payout-fees-exceed-zero-royalty");
+    let mut o = String::new();
+    for l in ["payout roy=- pay=10 fee=20 finders=-", "payout roy=11:0 pay=10 fee=20 finders=-", "payout roy=- pay=10 fee=6 finders=5", "payout roy=11:0 pay=10 fee=6 finders=5",
+        "payout roy=- pay=20 fee=20 finders=-", "payout roy=11:0 pay=20 fee=15 finders=5"] {
+        o.push(o1(&ses.step(&mut sut, l)));
+    }
+    ses.mark(format!("corpus:payout-zero-royalty:{o}"));
+    ses.end_case();
+
+    // ---- coverage floor: without these the run would be vacuous (every seed, every tier)
+    for kind in KINDS {
+        let k = kind.name();
+        for (_, v) in schema_variants(&exec_schema(kind)).iter().enumerate().map(|(i, x)| (i, x.0.clone())) {
+            ses.require(format!("sent:{k}:{v}"));
+        }
+        ses.require(format!("tour-probe:{k}:oeoe")); // lowering accepted; then: 1 ns early refused, due accepted, same block refused
+        ses.require(format!("tour-freeze:{k}:oe"));
+        ses.require(format!("grid:{k}:lower/<10:edge-1:er"));
+        ses.require(format!("grid:{k}:lower/<10:edge:ok"));
+        ses.require(format!("grid:{k}:lower/<10:edge+1:ok"));
+        ses.require(format!("grid:{k}:raise=2/<10:edge:ok"));
+        ses.require(format!("grid:{k}:raise=2+1/<10:edge:er"));
+        ses.require(format!("grid:{k}:raise<2/=10:edge:ok"));
+        ses.require(format!("grid:{k}:raise<2/>10:edge:er"));
+        ses.require(format!("grid:{k}:noold/=100:edge:ok"));
+        ses.require(format!("grid:{k}:noold/>100:edge:er"));
+        ses.require(format!("grid:{k}:lower/<10:edge+1:ok"));
+        ses.require(format!("grid2:{k}:roy:eoee"));
+        ses.require(format!("climb:{k}:0:eoe:below-cap"));
+        ses.require(format!("climb:{k}:8:eoe:at-cap"));
+        ses.require(format!("climb-end:{k}:eo"));
+        ses.require(format!("between:{k}:ooeeooeoeeoe"));
+        ses.require(format!("inst:{k}:valid:ok"));
+        ses.require(format!("inst:{k}:fault:er"));
+    }
+    ses.require("corpus:payout-zero-royalty:eeeeoo");
+    ses.require("tour-probe:base->updatable:oeeoe"); // upgrade accepted, change 1 ns after the previous one refused, then e/o/e
+    ses.require("migver:updatable:3.0.99:ok:rew:");
+    ses.require("migver:updatable:3.1.0:ok:norew:");
+    ses.require("migver:base:3.0.99:ok:rew:");
+    ses.require("migver:base:3.1.0:ok:norew:");
+    ses.require("migver:base:-:ok:norew:");
+    ses.require("migsoon:base:-:ok:oeeoe");
+    ses.require("migsoon:updatable:3.1.0:ok:oeeoe");
+    for c in ["payout-edge:room:ok", "payout-edge:room+1:er", "payout-edge:split-room:ok", "payout-edge:split-room+1:er", "payout:bits", "*:none:ok*", "*:zero:ok*"] {
+        ses.require(c);
+    }
+
+    ses.note("kinds: every section runs for sg721-base, sg721-nt, sg721-updatable and sg721-metadata-onchain (monitor keys sg721-<kind>/…); message surface of each kind enumerated from schema_for!(ExecuteMsg) at run time");
+    ses.note("times: first/next royalty update at last-change+24h {-1ns,0,+1ns}, same block again, sub-second offsets, backwards clock, far future; all < 2^62 ns");
     ses.note("shares: Decimal atomics incl. 0, 1, 2%±1, 10%±1, 100%±1, old, old±1, old+2%±1, uniformly random bit-length up to u128::MAX");
+    ses.note("migrations: base->updatable at the current version, stored versions 2.9.0/3.0.0/3.0.99/3.1.0/3.1.1/3.15.0 (setver) for updatable, base->updatable, onchain, nt; upgrade 1 ns after a change");
     ses.note("payout: every payment below the dense bound x 14 shares x 6 fee splits around payment-royalty {-1,0,+1}; 2^k±1, 10^k±1, u128::MAX; random 128-bit incl. fee sums that overflow u128");
+    if let Ok(pat) = std::env::var("C10_SHOW_CLASSES") {
+        // development aid: list the marked classes starting with one of the given prefixes
+        for c in ses.classes.iter().filter(|c| pat.split(',').any(|p| c.starts_with(p))) {
+            println!("class {c}");
+        }
+    }
     ses.finish(&mut sut);
 }
